@@ -122,10 +122,26 @@ def run(tier, out):
                     if first_steps:
                         model[first_steps[0]]["inp"]["user_time_spent"] = [40, "min"]       # x 1.5 = one hour exactly
                         forced.append((first_steps[0], "user_time_spent"))
+            # a job that lasts more than an hour, written in minutes (2.5 hours): its duration in whole hours must not depend on
+            # the unit; kept only if the system can still be built with it
+            jobs_r = [j for j in efx.names_of(model, "Job") if j in efx.reachable(model)]
+            long_job, before = None, None
+            if jobs_r:
+                long_job = rng.choice(jobs_r)
+                before = model[long_job]["inp"]["request_duration"]
+                model[long_job]["inp"]["request_duration"] = [150, "min"]
             try:
                 ref_live = efx.build(ns, model)
+                if long_job:
+                    forced.append((long_job, "request_duration"))
             except Exception:
-                continue
+                if not long_job:
+                    continue
+                model[long_job]["inp"]["request_duration"] = before
+                try:
+                    ref_live = efx.build(ns, model)
+                except Exception:
+                    continue
             names = sorted(efx.reachable(model))
             ref = efx.snapshot(ns, ref_live, names)
             inputs = [(n, a) for n in names for a in model[n]["inp"]]
